@@ -27,7 +27,7 @@ BINS2 = ["within", "=within", "within=", "=within="]
 
 
 def plan(tier, seed):
-    n = 6 if tier == "quick" else 140
+    n = 10 if tier == "quick" else 140
     return [{"seed": seed, "k": k, "n": n} for k in range(16)]
 
 
